@@ -156,7 +156,7 @@ BAD_STRAND = [b'', b'*', b'+-', b'++', b'plus', b' ', b'.+']
 # digits as the type maximum: 20-digit v >= 2^64 with v mod 2^64 >= 10^19 (u64), 10-digit v >= 2^32 with
 # v mod 2^32 >= 10^9 (u32).  Known finding (KNOWN_FINDINGS); generated on purpose so that the class stays watched.
 LEXICAL_CLASS = [b'28446744073709551616', b'36893488147419103230', b'65340232221128654848', b'+28446744073709551616', b'036893488147419103231']
-LEXICAL_CLASS_U32 = [b'5294967296', b'9999999999', b'8589934591']
+LEXICAL_CLASS_U32 = [b'5294967296', b'9999999999', b'8589934591', b'+5294967296', b'05294967296', b'007777777777', b'+9999999999', b'+06000000001']
 
 
 def in_lexical_class(tok):
@@ -207,6 +207,10 @@ def mutate(rng, line):
         j = rng.randrange(len(cols))
         cols[j] = rng.choice(LEXICAL_CLASS_U32 if j == 4 else LEXICAL_CLASS)
         return b'\t'.join(cols)
+    if rng.random() < 0.03:
+        # hundreds of extra trailing columns (column counts around 256, 512, 1024: a narrow column counter wraps)
+        extra = rng.choice([rng.randint(240, 270), rng.randint(500, 520), rng.randint(1015, 1030)]) - len(cols)
+        return line + b'\t' + b'\t'.join(rng.choice([b'x', b'', b'1', b'.']) for _ in range(max(1, extra)))
     if r < 0.22:
         return b'\t'.join(cols[:rng.randint(0, len(cols))])                       # prefix of the columns
     if r < 0.62:
